@@ -42,6 +42,21 @@ def documents(max_cues):
                             if TEXTS[t]:
                                 want.append((start, end, list(TEXTS[t])))
                         yield nl.join(lines) + tail.replace("\n", nl), want
+    # consecutive cues that denote the same instants (spelled alike or not), touching cues, cues out of time order: still one
+    # caption per cue, in DOCUMENT order
+    H = 3600 * S
+    specials = [
+        [("00:00:01,500", "00:00:02,001", 1500000, 2001000), ("00:00:01,500", "00:00:02,001", 1500000, 2001000)],
+        [("25:00:10,000", "25:00:12,000", 25 * H + 10 * S, 25 * H + 12 * S), ("25:00:10", "25:00:12", 25 * H + 10 * S, 25 * H + 12 * S),
+         ("25:00:13,5", "25:00:14,25", 25 * H + 13 * S + 5000, 25 * H + 14 * S + 25000)],
+        [("00:00:05,000", "00:00:06,000", 5 * S, 6 * S), ("00:00:01,000", "00:00:02,000", S, 2 * S), ("00:00:02,000", "00:00:05,000", 2 * S, 5 * S)],
+    ]
+    for cues in specials:
+        lines, want = [], []
+        for i, (a, b, s_, e_) in enumerate(cues):
+            lines += [str(i + 1), f"{a} --> {b}"] + TEXTS[i % 2] + [""]
+            want.append((s_, e_, list(TEXTS[i % 2])))
+        yield "\n".join(lines), want
 
 
 def run(ctx, report, rules, max_cues=None):
